@@ -233,6 +233,130 @@ def _node_worker(arg):
     return n, out
 
 
+def _miner_node_worker(hists):
+    """fork choice with the node's own miner among the sources of blocks: the blocks of every parent-choice sequence are
+    relayed to a real node whose MinerWatcher asks for work after the i-th arrival and reports a winning hash after the j-th
+    (every i <= j); the found block is an arrival like any other (a child of the head at the time of the request), and after
+    every arrival the node's served chain state is compared with the reference fork choice"""
+    import os
+    from .. import enc, seams, simnet
+    from skepticoin import consensus, mining
+    from skepticoin.coinstate import CoinState
+    from skepticoin.datatypes import Block, BlockHeader, BlockSummary
+    from skepticoin.networking.messages import DataMessage, DATA_BLOCK
+    from skepticoin.wallet import Wallet
+    ledger.setup()
+    seams.retarget_period(10080, 1209600)
+    seams.deterministic_wallet_signing()
+    uni = make_universe()
+    net = simnet.Net(seams.Clock(world.T0 + 10**6))
+    net.install()
+    seams.rebind(mining, 'time', net.clock)
+    d = os.path.join(os.getcwd(), 'c04-%d' % os.getpid())
+    os.makedirs(d, exist_ok=True)
+    os.chdir(d)
+
+    class Q:
+        def __init__(self):
+            self.items = []
+
+        def put(self, x):
+            self.items.append(x)
+    out = []
+    n = 0
+    for hist in hists:
+        L = len(hist)
+        for i, j in [(i, j) for i in range(L + 1) for j in range(i, L + 1)]:
+            for lst in (net.escaped, net.dialling, net.connections, net.nodes):
+                lst.clear()
+            net.listeners.clear()
+            net._eph = 40000
+            cs0 = CoinState.empty().add_block_no_validation(uni.root.block)
+            node = simnet.SimNode(net, 'N', '10.0.0.1', cs0)
+            D = simnet.Remote(net, node, host='5.5.5.5')
+            D.hello(nonce=1)
+            node.tick()
+            D.received()
+            mw = mining.MinerWatcher.__new__(mining.MinerWatcher)
+            mw.wallet = Wallet({K[6].pub: K[6].priv, K[7].pub: K[7].priv}, [K[6].pub, K[7].pub], {})
+            mw.coinstate = cs0
+            mw.mining_args = {}
+            mw.hash_stats = {}
+            mw.send_queues = [Q()]
+            mw.log_silencer = []
+            from decimal import Decimal
+            import datetime
+            mw.balance = Decimal(0)
+            mw.start_balance = Decimal(0)
+            mw.start_time = datetime.datetime(2020, 1, 1)
+            mw.args = type('Args', (), {'quiet': True})()
+            mw.network_thread = type('NT', (), {'local_peer': node.lp})()
+            mw.public_key = mw.wallet.get_annotated_public_key("reserved for potentially mined block")
+            fc = refmodel.ForkChoice()
+            fc.add(uni.root)
+            by_id = {uni.root.bid: uni.root}
+            trace = []
+            req = None
+
+            def check(what):
+                d_ = compare(node.cm.coinstate, fc, {m.bid: m for m in fc.order})
+                if d_:
+                    out.append((d_[0], d_[1] + " (node level: blocks relayed by a peer, the node's own miner asks for work after "
+                                "arrival %d and finds its block after arrival %d; events so far: %s)" % (i, j, ', '.join(trace)), hist,
+                                ['miner', i, j]))
+                    return False
+                return True
+            ok = True
+            for pos in range(L + 1):
+                if pos == i:
+                    try:
+                        mw.handle_request_scrypt_input_message(0, 5)
+                        summary, height = mw.send_queues[0].items[-1][1]
+                        s0, h0, t0 = mw.mining_args[0]
+                        req = (BlockSummary.deserialize(summary.serialize()), height, list(t0), node.cm.coinstate)
+                        trace.append('work request')
+                    except Exception as e:
+                        out.append(('miner-raises', "work request raises %r" % (e,), hist, ['miner', i, j]))
+                        ok = False
+                if ok and pos == j and req is not None:
+                    summary, height, txs, served = req
+                    sh = consensus.construct_summary_hash(summary, height)
+                    ev = consensus.construct_pow_evidence_after_scrypt(sh, served, summary, height, txs)
+                    blk = Block(BlockHeader(summary, ev), txs)
+                    try:
+                        mw.handle_scrypt_output_message(0, sh)
+                    except Exception as e:
+                        out.append(('miner-raises', "found-block handler raises %r" % (e,), hist, ['miner', i, j]))
+                        ok = False
+                    node.flush()
+                    D.received()
+                    par = by_id.get(summary.previous_block_hash)
+                    if ok and par is not None and blk.hash() < blk.target and not refmodel.validate_block(blk, par, int(net.clock())):
+                        M = world.Node(blk, par, path=par.path + ('mined',), check_apply=False)
+                        by_id[M.bid] = M
+                        fc.add(M)
+                        trace.append('own block found on %s' % ('/'.join(map(str, par.path)) or 'root'))
+                        n += 1
+                        ok = check('found')
+                if not ok or pos == L:
+                    break
+                nd = uni.get(hist[pos])
+                D.send(DataMessage(DATA_BLOCK, world.from_wire(nd.block)))
+                D.received()
+                by_id[nd.bid] = nd
+                fc.add(nd)
+                trace.append('/'.join(map(str, nd.path)))
+                n += 1
+                ok = check('arrival')
+                if not ok:
+                    break
+            if net.escaped:
+                out.append(('node-exception', "node handler: %s" % (net.escaped[0],), hist, ['miner', i, j]))
+            if len(out) > 5:
+                return n, out
+    return n, out
+
+
 def prefixes(uni, k):
     """all parent-choice sequences of length k (as histories)"""
     res = [()]
@@ -272,7 +396,11 @@ def run(ctx):
             res.append(({}, [bad]))
     nh = prefixes(uni, 5)
     nres = ctx.pmap(_node_worker, [(nh[i::8], irt) for irt in (0, 77, 'noise') for i in range(8)])
+    mh = prefixes(uni, 4 if ctx.quick else 5)
+    mres = ctx.pmap(_miner_node_worker, [mh[i::16] for i in range(16)])
+    tot['node_level_arrivals_with_own_miner'] = sum(r[0] for r in mres)
     tot['node_level_arrivals'] = sum(r[0] for r in nres)
+    nres = nres + mres
     for cnt, bad in nres:
         for b_ in bad:
             res.append(({}, [b_]))
@@ -297,7 +425,7 @@ def run(ctx):
         'traces_validated_against_impl': tot['transitions'],
         'samples': [ledger.hist_str(prefixes(uni, 4)[7]), ledger.hist_str(prefixes(uni, 4)[23])],
         'complete_sequences': tot['complete'], 'exhaustive': True, 'lopsided_tree_arrivals': tot['lopsided_arrivals'],
-        'node_level_arrivals': tot['node_level_arrivals'],
+        'node_level_arrivals': tot['node_level_arrivals'], 'node_level_arrivals_with_own_miner': tot['node_level_arrivals_with_own_miner'],
         'lopsided_trees': {'chain_length': N, 'histories': len(lh)},
         'bounds': {'blocks_validated_path': n, 'blocks_unvalidated_path': nv},
         'ties_where_later_arrival_has_smaller_id': tot['tie_later_smaller'],
@@ -320,6 +448,9 @@ def replay(data, ctx):
     now = world.T0 + 10**6
     hist = [tuple(p) for p in data['hist']]
     out = []
+    if 'node_irt' in data and isinstance(data['node_irt'], list):
+        n, bad = _miner_node_worker([tuple(hist)])
+        return [('forkchoice-' + b[0], b[1]) for b in bad if b[3] == data['node_irt']]
     if 'node_irt' in data:
         n, bad = _node_worker(([tuple(hist)], data['node_irt']))
         return [('forkchoice-' + b[0], b[1]) for b in bad]
